@@ -154,7 +154,9 @@ def p_range_end(e: list[Any], lay: Layout, *, start: bool) -> str:
 def p_path(e: list[Any], lay: Layout) -> str:
     _, root, segs = e
     brackets_root = not isinstance(root, str) or not is_ident(root)
-    if not isinstance(root, str):  # indirect root: the variable is named by another path
+    if isinstance(root, int):  # `[0]`: the variable whose name is the integer 0
+        buf = ["[" + lay.ows() + str(root) + lay.ows() + "]"]
+    elif not isinstance(root, str):  # indirect root: the variable is named by another path
         buf = ["[" + lay.ows() + p_path(root, lay) + lay.ows() + "]"]
     elif brackets_root:
         buf = ["[" + lay.ows() + quote_string(root, lay, raw_nl=False) + lay.ows() + "]"]
@@ -400,7 +402,13 @@ def p_stmt(s: dict[str, Any], lay: Layout) -> str:  # noqa: PLR0911, PLR0912, PL
         for key in ("limit", "offset", "cols"):
             if s.get(key) is not None:
                 v = s[key]
-                sv = "continue" if v == "continue" else p_prim(v, lay)
+                if v == "continue":
+                    sv = "continue"
+                elif key == "offset" and v[0] == "path" and v[1] == "continue" and not v[2]:
+                    # the variable named `continue`, not the keyword
+                    sv = "[" + quote_string("continue", lay, raw_nl=False) + "]"
+                else:
+                    sv = p_prim(v, lay)
                 opts.append(f"{key}{lay.pick([':', '='])}{lay.ows()}{sv}")
         if s.get("reversed"):
             opts.append("reversed")
